@@ -52,13 +52,13 @@ ASSUMPTIONS = ["CPython 3.12 semantics (close() returns None; StopIteration reac
 
 # model variant = the code as it is; after the patches in proposed_fixes/C23-*.diff are applied
 # flip the corresponding character to "1" (order: first_send, throw_si_fresh, close_ret, si_at_yf)
-FX = os.environ.get("C23_FX", "10100")
+FX = os.environ.get("C23_FX", "10101")
 FX_NAMES = ["send_nonnone_just_started_terminates", "throw_stopiteration_just_started_pep479",
             "close_return_value_in_genexit_handler", "stopiteration_reaching_yield_from",
             "asyncgen_never_started_drop_warns_never_awaited"]
 # async generator layer (AsyncGen.c) variant = the code as it is: t313, pad, closed_first; the CPython 3.12
 # reference is "001".  After proposed_fixes/C23-asyncgen_already_running_message_padding.diff flip char 1 to "0".
-AV = os.environ.get("C23_AV", "1111")
+AV = os.environ.get("C23_AV", "1010")
 AV_PY = "0010"
 AV_NAMES = ["asyncgen_awaitable_throw_close_follow_cpython313", "asyncgen_already_running_message_padding", None,
             "asyncgen_aclose_throw_await_suspension_crash"]
